@@ -1,11 +1,15 @@
 import Op2Proofs.GenValidate
+import Op2Proofs.Tileset.Headers
 import Op2Model.Tileset
 /-!
 # C09 — bridging lemmas: `Tileset::ValidateTileset` (`src/Sprite/TilesetLoader.cpp`), `TilesetHeader::Validate` and
 `PpalHeader::Validate` (`src/Sprite/TilesetHeaders.cpp`), as translated from the current C++ on this run
 (`Op2Model/Gen/Validate.lean`), decide exactly what the hand-written model `Op2Model/Tileset.lean` decides: `validateTs`, and the
-two header guards of the reader `Rd.custom` (stated with the model's constants), for every value of the C++ field types.
-A `Tag` is its four bytes.  `none` = the C++ function throws.
+two header guards `tilesetHeaderOk` / `ppalHeaderOk` — the named functions the reader `Rd.custom` calls — for every value of the C++
+field types.  A `Tag` is its four bytes.  `none` = the C++ function throws.
+`C09_reader_checks_headers` (model only) says that the reader applies exactly these two functions to the fields stored at their
+offsets; `C09_gen_reader_headers` puts the two halves together: the reader accepts a file only if the translated C++ functions
+return on its header, and refuses with `format` a file on whose header they throw.
 -/
 set_option linter.unusedSimpArgs false
 set_option linter.unusedVariables false
@@ -40,32 +44,34 @@ theorem C09_gen_validateTileset : Tileset_ValidateTileset_translated = true →
     genv_norm
     genv_close
 
-/-- `TilesetHeader::Validate`: the guard of the model's reader (`Rd.custom`, second guard), with the model's constants -/
+/-- `TilesetHeader::Validate` decides the model's `tilesetHeaderOk` — the very function the reader `Rd.custom` calls as its second
+    guard (see `C09_custom_ok_headers` below) -/
 theorem C09_gen_tilesetHeader_validate : TilesetHeader_Validate_translated = true →
     ∀ (t0 t1 t2 t3 : UInt8) (len tagCount pw ph : Nat), len < W32 → tagCount < W32 → pw < W32 → ph < W32 →
       TilesetHeader_Validate t0.toNat t1.toNat t2.toNat t3.toNat len tagCount pw ph =
-        returns (decide ([t0, t1, t2, t3] = tagHead ∧ len = headSectionSize ∧ pw = pixelWidth ∧ ph % heightMultiple = 0 ∧
-                         ph ≤ 2147483647 ∧ tagCount = headTagCount)) := by
+        returns (tilesetHeaderOk [t0, t1, t2, t3] len tagCount pw ph) := by
   gen_bridge =>
     intro t0 t1 t2 t3 len tagCount pw ph h1 h2 h3 h4
     have ht := tag_eq t0 t1 t2 t3 104 101 97 100 (by decide) (by decide) (by decide) (by decide)
     have hb : tagHead = [UInt8.ofNat 104, UInt8.ofNat 101, UInt8.ofNat 97, UInt8.ofNat 100] := rfl
     simp only [W32] at h1 h2 h3 h4
-    by_cases hG : ([t0, t1, t2, t3] = tagHead ∧ len = headSectionSize ∧ pw = pixelWidth ∧ ph % heightMultiple = 0 ∧
-                   ph ≤ 2147483647 ∧ tagCount = headTagCount)
-    · rw [decide_eq_true hG, returns_true]
+    cases hG : tilesetHeaderOk [t0, t1, t2, t3] len tagCount pw ph
+    · rw [returns_false]
+      unfold tilesetHeaderOk at hG
+      replace hG := of_decide_eq_false hG
       simp only [hb, ht, headSectionSize, pixelWidth, heightMultiple, headTagCount] at hG
       gen_validate_unfold; genv_norm; genv_close
-    · rw [decide_eq_false hG, returns_false]
+    · rw [returns_true]
+      unfold tilesetHeaderOk at hG
+      replace hG := of_decide_eq_true hG
       simp only [hb, ht, headSectionSize, pixelWidth, heightMultiple, headTagCount] at hG
       gen_validate_unfold; genv_norm; genv_close
 
-/-- `PpalHeader::Validate`: the guard of the model's reader (`Rd.custom`, third guard), with the model's constants -/
+/-- `PpalHeader::Validate` decides the model's `ppalHeaderOk` — the function the reader `Rd.custom` calls as its third guard -/
 theorem C09_gen_ppalHeader_validate : PpalHeader_Validate_translated = true →
     ∀ (p0 p1 p2 p3 h0 h1 h2 h3 : UInt8) (plen hlen tagCount : Nat), plen < W32 → hlen < W32 → tagCount < W32 →
       PpalHeader_Validate p0.toNat p1.toNat p2.toNat p3.toNat plen h0.toNat h1.toNat h2.toNat h3.toNat hlen tagCount =
-        returns (decide ([p0, p1, p2, p3] = tagPPAL ∧ plen = ppalSectionSize ∧ [h0, h1, h2, h3] = tagHead ∧
-                         hlen = ppalHeadSectionSize ∧ tagCount = ppalTagCount)) := by
+        returns (ppalHeaderOk [p0, p1, p2, p3] plen [h0, h1, h2, h3] hlen tagCount) := by
   gen_bridge =>
     intro p0 p1 p2 p3 h0 h1 h2 h3 plen hlen tagCount a1 a2 a3
     have hp := tag_eq p0 p1 p2 p3 80 80 65 76 (by decide) (by decide) (by decide) (by decide)
@@ -73,13 +79,103 @@ theorem C09_gen_ppalHeader_validate : PpalHeader_Validate_translated = true →
     have hbp : tagPPAL = [UInt8.ofNat 80, UInt8.ofNat 80, UInt8.ofNat 65, UInt8.ofNat 76] := rfl
     have hbh : tagHead = [UInt8.ofNat 104, UInt8.ofNat 101, UInt8.ofNat 97, UInt8.ofNat 100] := rfl
     simp only [W32] at a1 a2 a3
-    by_cases hG : ([p0, p1, p2, p3] = tagPPAL ∧ plen = ppalSectionSize ∧ [h0, h1, h2, h3] = tagHead ∧
-                   hlen = ppalHeadSectionSize ∧ tagCount = ppalTagCount)
-    · rw [decide_eq_true hG, returns_true]
+    cases hG : ppalHeaderOk [p0, p1, p2, p3] plen [h0, h1, h2, h3] hlen tagCount
+    · rw [returns_false]
+      unfold ppalHeaderOk at hG
+      replace hG := of_decide_eq_false hG
       simp only [hbp, hbh, hp, hh, ppalSectionSize, ppalHeadSectionSize, ppalTagCount] at hG
       gen_validate_unfold; genv_norm; genv_close
-    · rw [decide_eq_false hG, returns_false]
+    · rw [returns_true]
+      unfold ppalHeaderOk at hG
+      replace hG := of_decide_eq_true hG
       simp only [hbp, hbh, hp, hh, ppalSectionSize, ppalHeadSectionSize, ppalTagCount] at hG
       gen_validate_unfold; genv_norm; genv_close
+
+/-! ## the reader and the named guards -/
+
+/-- **model side of the tie.**  The custom-tileset reader applies `tilesetHeaderOk` / `ppalHeaderOk` to the header fields stored at
+    their fixed offsets: a file it accepts satisfies both; a file failing either is refused; and when the reader gets as far as the
+    guard (file long enough, everything before accepted) the refusal is `format`. -/
+theorem C09_reader_checks_headers (b : Bytes) :
+    (∀ f, readCustom b = .ok f →
+        tilesetHeaderOk (tagAt b 8) (u32At b 12) (u32At b 16) (u32At b 20) (u32At b 24) = true ∧
+        ppalHeaderOk (tagAt b 36) (u32At b 40) (tagAt b 44) (u32At b 48) (u32At b 52) = true) ∧
+    (tilesetHeaderOk (tagAt b 8) (u32At b 12) (u32At b 16) (u32At b 20) (u32At b 24) = false ∨
+     ppalHeaderOk (tagAt b 36) (u32At b 40) (tagAt b 44) (u32At b 48) (u32At b 52) = false → ∃ e, readCustom b = .err e) ∧
+    (36 ≤ b.length → tagAt b 0 = tagPBMP → u32At b 4 ≠ 0 →
+        tilesetHeaderOk (tagAt b 8) (u32At b 12) (u32At b 16) (u32At b 20) (u32At b 24) = false → readCustom b = .err .format) ∧
+    (56 ≤ b.length → tagAt b 0 = tagPBMP → u32At b 4 ≠ 0 →
+        tilesetHeaderOk (tagAt b 8) (u32At b 12) (u32At b 16) (u32At b 20) (u32At b 24) = true →
+        ppalHeaderOk (tagAt b 36) (u32At b 40) (tagAt b 44) (u32At b 48) (u32At b 52) = false → readCustom b = .err .format) := by
+  refine ⟨?_, ?_, ?_, ?_⟩
+  · intro f h
+    unfold readCustom runOut at h
+    split at h
+    · rename_i o rest hp; exact custom_headers hp
+    · cases h
+  · intro hbad
+    obtain ⟨e, he⟩ := custom_bad_header (b := b) hbad
+    exact ⟨e, by unfold readCustom runOut; rw [he]⟩
+  · intro hl hs hn hbad
+    unfold readCustom runOut; rw [custom_bad_tilesetHeader hl hs hn hbad]
+  · intro hl hs hn hok hbad
+    unfold readCustom runOut; rw [custom_bad_ppalHeader hl hs hn hok hbad]
+
+/-- **both halves together.**  On every file long enough to hold the two headers, `TilesetHeader::Validate` / `PpalHeader::Validate` as
+    translated from the current C++, applied to the fields stored in the file, return exactly when the model's reader's guards
+    hold; hence a file the model's reader accepts is one on which both C++ functions return, and a file (with an accepted signature
+    section) on whose tileset header the C++ function throws is refused by the model's reader with `format`. -/
+theorem C09_gen_reader_headers : TilesetHeader_Validate_translated = true → PpalHeader_Validate_translated = true →
+    ∀ b : Bytes,
+      (56 ≤ b.length →
+        TilesetHeader_Validate (byteAt b 8).toNat (byteAt b 9).toNat (byteAt b 10).toNat (byteAt b 11).toNat
+            (u32At b 12) (u32At b 16) (u32At b 20) (u32At b 24) = returns (tilesetHeaderOkAt b) ∧
+        PpalHeader_Validate (byteAt b 36).toNat (byteAt b 37).toNat (byteAt b 38).toNat (byteAt b 39).toNat (u32At b 40)
+            (byteAt b 44).toNat (byteAt b 45).toNat (byteAt b 46).toNat (byteAt b 47).toNat (u32At b 48) (u32At b 52) =
+          returns (ppalHeaderOkAt b)) ∧
+      (∀ f, readCustom b = .ok f →
+        TilesetHeader_Validate (byteAt b 8).toNat (byteAt b 9).toNat (byteAt b 10).toNat (byteAt b 11).toNat
+            (u32At b 12) (u32At b 16) (u32At b 20) (u32At b 24) = some () ∧
+        PpalHeader_Validate (byteAt b 36).toNat (byteAt b 37).toNat (byteAt b 38).toNat (byteAt b 39).toNat (u32At b 40)
+            (byteAt b 44).toNat (byteAt b 45).toNat (byteAt b 46).toNat (byteAt b 47).toNat (u32At b 48) (u32At b 52) = some ()) ∧
+      (56 ≤ b.length → tagAt b 0 = tagPBMP → u32At b 4 ≠ 0 →
+        TilesetHeader_Validate (byteAt b 8).toNat (byteAt b 9).toNat (byteAt b 10).toNat (byteAt b 11).toNat
+            (u32At b 12) (u32At b 16) (u32At b 20) (u32At b 24) = none → readCustom b = .err .format) := by
+  intro hT hP b
+  have key : 56 ≤ b.length →
+      TilesetHeader_Validate (byteAt b 8).toNat (byteAt b 9).toNat (byteAt b 10).toNat (byteAt b 11).toNat
+          (u32At b 12) (u32At b 16) (u32At b 20) (u32At b 24) = returns (tilesetHeaderOkAt b) ∧
+      PpalHeader_Validate (byteAt b 36).toNat (byteAt b 37).toNat (byteAt b 38).toNat (byteAt b 39).toNat (u32At b 40)
+          (byteAt b 44).toNat (byteAt b 45).toNat (byteAt b 46).toNat (byteAt b 47).toNat (u32At b 48) (u32At b 52) =
+        returns (ppalHeaderOkAt b) := by
+    intro hl
+    have lt : ∀ n, u32At b n < W32 := fun n => Bmp.decU32_lt _
+    unfold tilesetHeaderOkAt ppalHeaderOkAt
+    rw [tagAt_bytes b 8 (by omega), tagAt_bytes b 36 (by omega), tagAt_bytes b 44 (by omega)]
+    exact ⟨C09_gen_tilesetHeader_validate hT _ _ _ _ _ _ _ _ (lt _) (lt _) (lt _) (lt _),
+           C09_gen_ppalHeader_validate hP _ _ _ _ _ _ _ _ _ _ _ (lt _) (lt _) (lt _)⟩
+  refine ⟨key, ?_, ?_⟩
+  · intro f h
+    have hh := (C09_reader_checks_headers b).1 f h
+    have hl : 56 ≤ b.length := by
+      unfold readCustom runOut at h
+      split at h
+      · rename_i o rest hp; subst h
+        have := (custom_ok hp).2.2.2.2.2.2.1
+        omega
+      · cases h
+    obtain ⟨k1, k2⟩ := key hl
+    rw [k1, k2]
+    unfold tilesetHeaderOkAt ppalHeaderOkAt
+    rw [hh.1, hh.2]
+    exact ⟨rfl, rfl⟩
+  · intro hl hs hn hnone
+    obtain ⟨k1, _⟩ := key hl
+    rw [k1] at hnone
+    have hbad : tilesetHeaderOkAt b = false := by
+      cases hc : tilesetHeaderOkAt b with
+      | false => rfl
+      | true => rw [hc] at hnone; cases hnone
+    exact (C09_reader_checks_headers b).2.2.1 (by omega) hs hn hbad
 
 end Op2.Props.C09
